@@ -1,3 +1,18 @@
+/- Tie obligations: limits and comparison shapes regenerated from /repo must be the ones the C18 model mirrors. -/
+import Banyan.Generated.C18
 import Banyan.Model.C18
+
 namespace Banyan.Tie.C18
+open Banyan
+
+theorem gossip_limit_tie : Generated.C18.gossipQuerySize = C18.searchLimit := rfl
+theorem repair_limit_tie : Generated.C18.repairSearchLimit = C18.searchLimit := rfl
+theorem query_limit_tie : Generated.C18.queryDefaultLimit = C18.searchLimit := rfl
+/-- `shard.repair` refuses an incoming document of the same revision unless its delete time is greater. -/
+theorem repair_tiebreak_tie : Generated.C18.repairKeepsLaterTombstone = C18.repairKeepsLaterTombstone := rfl
+theorem repair_skip_tie : Generated.C18.repairSkipsReplacedDoc = C18.repairSkipsReplacedDoc := rfl
+/-- the liaison orders states of a property as `shard.repair` does. -/
+theorem liaison_order_tie : Generated.C18.liaisonUsesNewerThan = C18.liaisonUsesNewerThan := rfl
+theorem doc_id_tie : Generated.C18.docIdIsEntityAndRevision = true := rfl
+
 end Banyan.Tie.C18
